@@ -5,6 +5,7 @@ CONSTANTS
   FetchMax = 2
   HWFallback = FALSE
   ElectAlive = FALSE
+  AllowLag = FALSE
   ElectDown = TRUE
   MaxMsgs = 3
   MaxElect = 2
